@@ -171,6 +171,7 @@ def gen_items(seed, n, **kw):
     for k in range(n):
         s = seed * 1000003 + k
         wild = (k % 3 == 0)
+        kw.setdefault("same_line", True)
         text, feats = proggen.generate(s, wild=wild, **kw)
         opts = {}
         if k % 4 == 1:
